@@ -23,6 +23,7 @@
 import Fca.Model.PS
 import Fca.Spec.PS
 import Fca.Lemmas.PS
+import Fca.Gen.EquivPS
 namespace Fca.C13
 open Fca Fca.PS Fca.Spec.PS
 
@@ -303,5 +304,98 @@ example : InRange [2, 0] 3 ∧ coversAll attrCovers [true, false, true] true [2,
     attrExtensionI [true, false, true] true (some [2, 1, 0]) = .ok [2, 0] := by
   refine ⟨?_, by decide, by decide, by decide⟩
   intro x hx; simp at hx; rcases hx with rfl | rfl <;> decide
+
+end Fca.C13
+
+/-! ### `intention_i` / `extension_i` of `IntervalPS`, `SetPS`, `AttributePS`, for the definitions GENERATED from the
+  Python source
+
+  `Fca.Gen.Lists.iv* / set* / attr*` (`Fca/Gen/GeneratedPS.lean`) is what `harness/py2lean.py` makes of the current
+  source of the three pure-Python pattern structures; `Fca/Gen/EquivPS.lean` proves them EQUAL to the hand-written
+  models (no hypothesis: `IndexError` included), so the theorems above hold verbatim for what the code says now.
+  (`IntervalPS.extension_i` is translated for a description that is `None` or a pair.) -/
+namespace Fca.C13
+open Fca Fca.PS Fca.Spec.PS
+
+theorem ivDescSem_ofOpt (d : Option Iv) : ivDescSem (IvDesc.ofOpt d) = some d := by
+  cases d with
+  | none => rfl
+  | some v => cases v; rfl
+
+theorem gen_interval_ext_exact (P : Gen.IvPS) (d : Option Iv) (base : Option (List Nat))
+    (hb : BaseInRange base P.data.length) :
+    Gen.Lists.ivExtensionI P d base = .ok (ext ivCovers P.data d (base.getD (List.range P.data.length))) := by
+  rw [Gen.Lists.ivExtensionI_eq_model]
+  exact interval_ext_exact P.data (IvDesc.ofOpt d) d (ivDescSem_ofOpt d) base hb
+
+theorem gen_interval_int_extensive (P : Gen.IvPS) (A : List Nat) (hne : A ≠ []) (hA : InRange A P.data.length) :
+    ∃ dA, Gen.Lists.ivIntentionI P A = .ok (some dA) ∧
+      ∀ base, BaseInRange base P.data.length →
+        ∃ E, Gen.Lists.ivExtensionI P (some dA) base = .ok E ∧
+          ∀ g ∈ A, g ∈ base.getD (List.range P.data.length) → g ∈ E := by
+  simp only [Gen.Lists.ivIntentionI_eq_model, Gen.Lists.ivExtensionI_eq_model]
+  exact interval_int_extensive P.data A hne hA
+
+theorem gen_interval_int_most_specific (P : Gen.IvPS) (A : List Nat) (hne : A ≠ []) (hA : InRange A P.data.length)
+    (d : Option Iv) (hcov : coversAll ivCovers P.data d A = true)
+    (base : Option (List Nat)) (hb : BaseInRange base P.data.length) :
+    ∃ dA E E', Gen.Lists.ivIntentionI P A = .ok (some dA) ∧
+      Gen.Lists.ivExtensionI P (some dA) base = .ok E ∧
+      Gen.Lists.ivExtensionI P d base = .ok E' ∧ ∀ g ∈ E, g ∈ E' := by
+  simp only [Gen.Lists.ivIntentionI_eq_model, Gen.Lists.ivExtensionI_eq_model]
+  exact interval_int_most_specific P.data A hne hA (IvDesc.ofOpt d) d (ivDescSem_ofOpt d) hcov base hb
+
+theorem gen_set_ext_exact (P : Gen.SetPS) (d : Option VSet) (base : Option (List Nat))
+    (hb : BaseInRange base P.data.length) :
+    Gen.Lists.setExtensionI P d base = .ok (ext setCovers P.data d (base.getD (List.range P.data.length))) := by
+  rw [Gen.Lists.setExtensionI_eq_model]; exact set_ext_exact P.data d base hb
+
+theorem gen_set_int_extensive (P : Gen.SetPS) (A : List Nat) (hA : InRange A P.data.length) :
+    ∃ dA, Gen.Lists.setIntentionI P A = .ok dA ∧
+      ∀ base, BaseInRange base P.data.length →
+        ∃ E, Gen.Lists.setExtensionI P (some dA) base = .ok E ∧
+          ∀ g ∈ A, g ∈ base.getD (List.range P.data.length) → g ∈ E := by
+  simp only [Gen.Lists.setIntentionI_eq_model, Gen.Lists.setExtensionI_eq_model]
+  exact set_int_extensive P.data A hA
+
+theorem gen_set_int_most_specific (P : Gen.SetPS) (A : List Nat) (hne : A ≠ []) (hA : InRange A P.data.length)
+    (d : Option VSet) (hcov : coversAll setCovers P.data d A = true)
+    (base : Option (List Nat)) (hb : BaseInRange base P.data.length) :
+    ∃ dA E E', Gen.Lists.setIntentionI P A = .ok dA ∧
+      Gen.Lists.setExtensionI P (some dA) base = .ok E ∧
+      Gen.Lists.setExtensionI P d base = .ok E' ∧ ∀ g ∈ E, g ∈ E' := by
+  simp only [Gen.Lists.setIntentionI_eq_model, Gen.Lists.setExtensionI_eq_model]
+  exact set_int_most_specific P.data A hne hA d hcov base hb
+
+theorem gen_attr_ext_exact (P : Gen.AttrPS) (d : Bool) (base : Option (List Nat))
+    (hb : BaseInRange base P.data.length) :
+    Gen.Lists.attrExtensionI P d base = .ok (ext attrCovers P.data d (base.getD (List.range P.data.length))) := by
+  rw [Gen.Lists.attrExtensionI_eq_model]; exact attr_ext_exact P.data d base hb
+
+theorem gen_attr_intention_nonempty (P : Gen.AttrPS) (A : List Nat) (hne : A ≠ []) (hA : InRange A P.data.length) :
+    Gen.Lists.attrIntentionI P A = .ok (A.all fun g => (P.data[g]?).any id) := by
+  rw [Gen.Lists.attrIntentionI_eq_model]; exact attr_intention_nonempty P.data A hne hA
+
+theorem gen_attr_int_extensive (P : Gen.AttrPS) (A : List Nat) (hne : A ≠ []) (hA : InRange A P.data.length) :
+    ∃ dA, Gen.Lists.attrIntentionI P A = .ok dA ∧
+      ∀ base, BaseInRange base P.data.length →
+        ∃ E, Gen.Lists.attrExtensionI P dA base = .ok E ∧
+          ∀ g ∈ A, g ∈ base.getD (List.range P.data.length) → g ∈ E := by
+  simp only [Gen.Lists.attrIntentionI_eq_model, Gen.Lists.attrExtensionI_eq_model]
+  exact attr_int_extensive P.data A hne hA
+
+theorem gen_attr_int_most_specific (P : Gen.AttrPS) (A : List Nat) (hne : A ≠ []) (hA : InRange A P.data.length)
+    (d : Bool) (hcov : coversAll attrCovers P.data d A = true)
+    (base : Option (List Nat)) (hb : BaseInRange base P.data.length) :
+    ∃ dA E E', Gen.Lists.attrIntentionI P A = .ok dA ∧
+      Gen.Lists.attrExtensionI P dA base = .ok E ∧
+      Gen.Lists.attrExtensionI P d base = .ok E' ∧ ∀ g ∈ E, g ∈ E' := by
+  simp only [Gen.Lists.attrIntentionI_eq_model, Gen.Lists.attrExtensionI_eq_model]
+  exact attr_int_most_specific P.data A hne hA d hcov base hb
+
+/-- the generated definitions compute: -/
+example : Gen.Lists.ivIntentionI ⟨[(1, 1), (1, 3), (2, 2), (0, 2)]⟩ [2, 0] = .ok (some (1, 2)) ∧
+    Gen.Lists.ivExtensionI ⟨[(1, 1), (1, 3), (2, 2), (0, 2)]⟩ (some (1, 2)) (some [3, 1, 0]) = .ok [0] := by
+  exact ⟨by rfl, by rfl⟩
 
 end Fca.C13
